@@ -54,6 +54,8 @@ pub enum QAct {
     /// the other well-known string qualifiers: insert_typed / remove_typed by kind
     InsertTypedOther(u8, String),
     RemoveTypedOther(u8),
+    /// insert_typed / try_insert_typed (by flag) / remove_typed / get_typed with a declared KEY that is invalid
+    TypedInvalidKey(u8),
 }
 
 /// the well-known string qualifiers and the keys the PURL specification gives them
@@ -157,6 +159,9 @@ impl QModel {
             acts.push(QAct::Insert(OTHER_TYPED[kind as usize].to_ascii_uppercase(), "k".to_owned()));
         }
         acts.push(QAct::InsertTypedOther(4, "".to_owned()));
+        for which in 0..4u8 {
+            acts.push(QAct::TypedInvalidKey(which));
+        }
         acts.push(QAct::Clear);
         QModel { name: "quals-typed-others-bfs", keys: OTHER_TYPED.iter().map(|s| s.to_string()).collect(), invalid: vec![], values: vec!["x".into()], acts, typed: true, init_from_pairs: 0 }
     }
@@ -214,6 +219,7 @@ impl QModel {
         }
         acts.push(QAct::Reserve(0));
         acts.push(QAct::Reserve(7));
+        acts.push(QAct::Reserve(200));
         if typed {
             for v in ["", "x", "https://e.x/?a=1&b=2"] {
                 acts.push(QAct::InsertTypedRepo(v.to_owned()));
@@ -692,6 +698,28 @@ impl Model for QModel {
             QAct::RemoveTypedOther(kind) => {
                 remove_other(&mut q, *kind);
                 r.remove(OTHER_TYPED[*kind as usize]);
+            },
+            QAct::TypedInvalidKey(which) => {
+                // the documented panic (insert) or a refusal / no-op: either way nothing may change,
+                // which the state oracle checks on the returned state
+                let res = guarded(|| match which {
+                    0 => {
+                        q.insert_typed(BadKeyTag("v"));
+                        "returned".to_owned()
+                    },
+                    1 => format!("{:?}", q.try_insert_typed(BadKeyTag("v")).map_err(|e: std::convert::Infallible| e)),
+                    2 => {
+                        q.remove_typed::<BadKeyTag>();
+                        "returned".to_owned()
+                    },
+                    _ => format!("{:?} {}", q.get_typed::<BadKeyTag>().map(|x| x.0.to_owned()), q.contains_typed::<BadKeyTag>()),
+                });
+                match (&res, which) {
+                    (Err(_), 0 | 1) => acc.count("documented_panic_insert_typed_invalid_key"),
+                    (Err(m), _) => bad!("typed-invalid-key-panics", "remove_typed / get_typed with an invalid declared key panics: {m}"),
+                    (Ok(t), 3) if t != "None false" => bad!("typed-invalid-key-found", "get_typed / contains_typed with an invalid declared key report {t}"),
+                    _ => {},
+                }
             },
             QAct::RemoveTypedRepo => {
                 q.remove_typed::<RepositoryUrl>();
